@@ -71,6 +71,7 @@ def main(ck, args):
                 if verdict.startswith("CHECK-ERROR"):
                     first = (p.stderr or "")[-300:].replace("\n", " | ")
                 results.append((it["name"] + " -> " + prop, verdict, "%d violation lines; %s" % (len(viol), first)))
+                print("[progress] %s -> %s %s" % (it["name"], prop, verdict), flush=True)
         finally:
             git(ck, "checkout", "--", ".")
             cl = git(ck, "status", "--porcelain")
